@@ -628,6 +628,7 @@ def check_scripts(requests, stats, findings, broken, samples):
             step_reqs.append(' '.join(['mem_script', g, prec, str(N), str(NV)] + prev + op))
             step_meta.append((len(parsed) - 1, k))
             prev = states[k] if k < len(states) else prev
+    suspects = []
     wsets_rep = vlib.run_driver(wreqs)
     step_rep = vlib.run_driver(step_reqs)
     whole_rep = vlib.run_driver([r.split(' |')[0] for r, p in zip(requests, parsed) if p is not None])
@@ -698,8 +699,11 @@ def check_scripts(requests, stats, findings, broken, samples):
             if bad_inside or outside_bad:
                 line = step_reqs_line(g, prec, N, NV, prev, op)
                 if op[0] in ARITH and not outside_bad:
-                    broken.append({'what': 'correspondence', 'name': f'T1 mem_script {g} {prec} op {op[0]} operands:{rel} (arithmetic result vs Lean model)',
-                                   'first': {'line': line, 'impl': ' '.join(now[lo:hi]), 'model': ' '.join(mw[lo:hi])}})
+                    # second pass (same discipline as vlib.t1_compare): is the disagreement within the model's own
+                    # sensitivity to ±1 ulp changes of the operand words?  (operands that are not group elements —
+                    # e.g. a right operand that only partially overlaps an initialised view — can be ill-conditioned)
+                    suspects.append({'g': g, 'prec': prec, 'N': N, 'NV': NV, 'prev': prev, 'op': op, 'lo': lo, 'hi': hi, 'rel': rel,
+                                     'now': now, 'mw': mw, 'err': err, 'det': det, 'line': line})
                 else:
                     # a verbatim op (or a frame word) disagrees with the buffer model: the property itself is violated
                     findings.append({'property': 'C16', 'key': {'kind': 'verbatim', 'group': g, 'prec': prec, 'op': op[0], 'path': (op[2] if op[0] in 'ICMP' else op[3] if op[0] in ('R', 'RL') else '-')},
@@ -717,6 +721,36 @@ def check_scripts(requests, stats, findings, broken, samples):
                                  'what': 'whole-script run of the buffer model differs from the implementation', 'line': req[:6000]})
         if len(samples) < 6 and idx % 17 == 0:
             samples.append({'request': req[:500] + ' …', 'ops': len(ops), 'impl_final_state': ' '.join(states[-1])[:300] if states else ''})
+    resolve_suspects(suspects, stats, broken)
+
+
+def resolve_suspects(suspects, stats, broken, seed=1, variants=6, factor=8.0):
+    if not suspects:
+        return
+    rnd = random.Random(seed)
+    reqs = []
+    for sp in suspects:
+        for v in range(variants):
+            st = [w if gdesc.is_nan_word(w, sp['prec']) else vlib.nudge(w, sp['prec'], rnd.choice((-1, 0, 1))) for w in sp['prev']]
+            reqs.append(step_reqs_line(sp['g'], sp['prec'], sp['N'], sp['NV'], st, sp['op']))
+    reps = vlib.run_driver(reqs)
+    for i, sp in enumerate(suspects):
+        sens = 0.0
+        lo, hi = sp['lo'], sp['hi']
+        for v in range(variants):
+            r = reps[i * variants + v]
+            if r.startswith('ERR'):
+                continue
+            e2, d2 = vlib.diff_ulp(sp['mw'][lo:hi], r.split()[lo:hi], sp['prec'])
+            if not d2:
+                sens = max(sens, e2)
+        if not sp['det'] and sp['err'] <= TOL_ULP + factor * sens:
+            stats['arith_excused_by_sensitivity'] = stats.get('arith_excused_by_sensitivity', 0) + 1
+        else:
+            broken.append({'what': 'correspondence',
+                           'name': f"T1 mem_script {sp['g']} {sp['prec']} op {sp['op'][0]} operands:{sp['rel']} (arithmetic result vs Lean model)",
+                           'first': {'line': sp['line'], 'impl': ' '.join(sp['now'][lo:hi]), 'model': ' '.join(sp['mw'][lo:hi]),
+                                     'err_ulp': sp['err'], 'sensitivity_ulp': sens}})
 
 
 def step_reqs_line(g, prec, N, NV, prev, op):
